@@ -79,7 +79,10 @@ def h1_history(draw: Any) -> Dict[str, Any]:
         else:
             steps.append({"op": "peer_loss", "how": draw(st.sampled_from(
                 ["eof", "reset", "write_fail"])),
-                "during": draw(st.sampled_from(["idle", "busy", "busy_linger"]))})
+                "during": draw(st.sampled_from(["idle", "busy", "busy_linger", "busy_pipelined"]))})
+            if steps[-1]["during"] == "busy_pipelined":
+                # a second request waits behind the one whose response cannot be written
+                steps[-1]["how"] = "write_fail"
             break
     return {"proto": "h1", "T": T, "steps": steps, "sched": draw(st.integers(0, 999)),
             "reset_how": draw(st.sampled_from(["reset", "reset", "unreach", "netdown", "timedout", "aborted"]))}
@@ -355,7 +358,12 @@ async def run_h1(env: Any, case: Dict[str, Any], app: Any) -> Dict[str, Any]:
                 app.programs[path] = [["recv_all"], ["sleep", 3 * T],
                                       ["respond", 200, [["content-length", "2"]], ["ok"]],
                                       ["recv_disc"], ["sleep", linger]]
-                conn.send(request_bytes(path))
+                behind = b""
+                if during == "busy_pipelined":
+                    app.programs["/behind"] = [["recv_all"], ["respond", 200,
+                                                               [["content-length", "2"]], ["ok"]]]
+                    behind = request_bytes("/behind")
+                conn.send(request_bytes(path) + behind)
                 nreq += 1
                 tm.busy()
                 await env.settle0()
@@ -628,6 +636,11 @@ def judge_end(case: Dict[str, Any], obs: Any) -> None:
     dead = find_queue_deadlock(obs)
     if dead:
         raise Violation("app_queue_deadlock", dead, **tag)
+    started_behind = [i for i in obs.instances if i.scope.get("path") == "/behind"]
+    if started_behind:
+        raise Violation("request_started_on_dead_connection", "the response ahead of it could "
+                        f"not be written (peer gone); the request waiting behind was started at "
+                        f"t={started_behind[0].start_t}", **tag)
     exits = [i.exit_t for i in obs.instances if i.exit_t is not None and not i.running_at_end]
     running = [i for i in obs.instances if i.running_at_end]
     gone_at = val["lost_at"] if val["lost_at"] is not None else conn.server_eof_at
